@@ -4,6 +4,7 @@ import CobyqaVerif.Model.Run
 import CobyqaVerif.Model.Settings
 import CobyqaVerif.Model.Radius
 import CobyqaVerif.Model.Constraints
+import CobyqaVerif.Model.Reduce
 import CobyqaVerif.Gen.Settings
 /-!
 Line-protocol driver: `lake env lean --run Driver.lean < requests > answers`.
@@ -325,6 +326,37 @@ def doSplitNl (hdr vals : List Nat) : String :=
   | _ => "bad-op"
 end cons
 
+/-! ## reduction to free / scaled variables and initial interpolation set (C01, C10) -/
+section reduce
+open Cobyqa
+
+/-- `buildx scale n | lb1 ub1 ... lbn ubn x1 ... xk` -> bits of `build_x(x)`; `fixed=` mask; `feasible=` flag -/
+def doBuildX (hdr vals : List Nat) : String :=
+  match hdr with
+  | [scale, n] =>
+    match limPairs (vals.take (2 * n)) with
+    | none => "bad-op"
+    | some lims =>
+      let lb := lims.map (·.1)
+      let ub := lims.map (·.2)
+      let tol := arraysTol (10.0 : Float) (fl EPSBITS) (lb.map sanitizeLower) (ub.map sanitizeUpper)
+      let R := mkReduction tol (scale = 1) lb ub
+      let x := (vals.drop (2 * n)).map fl
+      " ".intercalate ((buildX R x).map fun v => toString (bits v)) ++ " fixed=" ++
+        String.ofList (R.fixed.map fun b => if b then '1' else '0') ++ s!" feasible={if R.feasible then 1 else 0}"
+  | _ => "bad-op"
+
+def optLim (b : Nat) : Option Float := match limOfBits b with | .fin v => some v | _ => none
+
+/-- `axis | x0 rho xl xu` -> `base step1 step2` bits -/
+def doAxis (vals : List Nat) : String :=
+  match vals with
+  | [x0, rho, xl, xu] =>
+    let A := initAxis (fl x0) (fl rho) (optLim xl) (optLim xu)
+    s!"{bits A.base} {bits A.step1} {bits A.step2}"
+  | _ => "bad-op"
+end reduce
+
 def handle (line : String) : String :=
   match line.splitOn "|" with
   | [h, v] =>
@@ -341,6 +373,8 @@ def handle (line : String) : String :=
         | "filter" => doFilter hdr vals
         | "spec03" => doSpec03 hdr vals
         | "scan" => doScan hdr vals
+        | "buildx" => doBuildX hdr vals
+        | "axis" => doAxis vals
         | "splitlin" => doSplitLin vals
         | "splitnl" => doSplitNl hdr vals
         | "remove" => doRemove hdr vals
